@@ -12,11 +12,18 @@ Init == i \in 1..Len(V)
 Next == UNCHANGED i
 
 Good(v) ==
-  IF v.kind = "encode" THEN EncodeOK(v.b, v.qs, v.exp, v.limit)
+  IF v.kind = "encode" THEN EncodeOK(v.b, v.qs, v.exp, v.limit) /\ (v.boundary = 1 => BoundaryOK(v.b, v.qs, v.exp, v.limit))
   ELSE IF v.kind = "query" THEN \E k \in 1..Len(v.names) : QueryOK(v.b, v.names[k], v.type, v.randcase = 1, v.edns)
   ELSE FALSE
 Why(v) ==
-  IF v.kind = "encode" THEN EncodeWhy(v.b, v.qs, v.exp, v.limit)
+  IF v.kind = "encode" THEN
+       (IF EncodeOK(v.b, v.qs, v.exp, v.limit)
+        THEN (IF ~Incompressible(v.qs, v.exp) THEN "boundary scenario with compressible names (generator error)"
+              ELSE "size boundary: incompressible response of " \o ToString(PlainTotal(v.qs, v.exp)) \o " bytes, limit "
+                   \o ToString(v.limit) \o ": TC / length wrong (TC iff it exceeds the limit)")
+        ELSE IF v.boundary = 1 /\ Decode(v.b).hdr /\ Decode(v.b).tc = 1 /\ PlainTotal(v.qs, v.exp) <= v.limit
+        THEN "size boundary: response of " \o ToString(PlainTotal(v.qs, v.exp)) \o " bytes truncated although the limit is " \o ToString(v.limit)
+        ELSE EncodeWhy(v.b, v.qs, v.exp, v.limit))
   ELSE LET d == Decode(v.b) IN
        IF ~d.hdr \/ ~d.ok THEN "not a well-formed message"
        ELSE IF ~d.exact THEN "trailing bytes after the announced records (malformed question section)"
